@@ -315,14 +315,11 @@ fn do_priv(req: &Value) -> Value {
                 match pk.encrypt(&sp, boots, time) {
                     Ok((data, pp)) => {
                         let (data, pp) = (data.to_vec(), pp.to_vec());
-                        let st = pk.verif_state();
                         out.push(json!({"op":"encrypt","res":"ok","data":jb(&data),"pp":jb(&pp),
-                            "plain": plain.map(|b| jb(&b)).unwrap_or(Value::Null),
-                            "salt_next": st.1.to_string(), "buflen": st.2}));
+                            "plain": plain.map(|b| jb(&b)).unwrap_or(Value::Null)}));
                     }
                     Err(e) => {
-                        let st = pk.verif_state();
-                        out.push(json!({"op":"encrypt","res":err_name(&e),"salt_next": st.1.to_string(), "buflen": st.2}));
+                        out.push(json!({"op":"encrypt","res":err_name(&e)}));
                     }
                 }
             }
@@ -343,11 +340,7 @@ fn do_priv(req: &Value) -> Value {
                     Err(e) => json!({"op":"decrypt","res":err_name(&e)}),
                 }));
                 match r {
-                    Ok(mut v) => {
-                        let st = pk.verif_state();
-                        v["buflen"] = json!(st.2);
-                        out.push(v)
-                    }
+                    Ok(v) => out.push(v),
                     Err(_) => out.push(json!({"op":"decrypt","res":"panic"})),
                 }
             }
